@@ -31,13 +31,19 @@ def unwrap(v: Val) -> Val:
 def check_initial(ctx, st: Strategy, clsname: str, with_x: bool = True):
     """the result array starts as the piecewise-constant oversampling of the averages, extended by constants"""
     y = st.Y_ext
-    ok = call_is(y, 'extend_constant')
+    if y is None:
+        # the strategy does not keep its result in an extended copy of the oversampled averages: another layout, which the window rules are not read from
+        ctx.unknown('C05.1', f"{clsname}: result array initialised as extend_constant(oversample_piecewise_constant(self.y, n), n, 'both')",
+                    'the strategy builds no extended result array: layout not recognised', st.rfa.loc(), st.rfa.qualname, 'init-z')
+        ok = None
+    ok = call_is(y, 'extend_constant') if y is not None else False
     inner = unwrap(y.kw('a')) if ok else None
     ok = ok and call_is(inner, 'oversample_piecewise_constant') and veq(unwrap(inner.kw('a')), unwrap(st.Y0)) \
         and isinstance(inner.kw('num'), Num) and inner.kw('num').r == st.n and isinstance(y.kw('n'), Num) and y.kw('n').r == st.n \
         and veq(y.kw('direction'), Const('both'))
-    ctx.check(ok, 'C05.1', f"{clsname}: result array initialised as extend_constant(oversample_piecewise_constant(self.y, n), n, 'both')",
-              show(y, 300), st.rfa.loc(), st.rfa.qualname, 'init-z')
+    if y is not None:
+        ctx.check(ok, 'C05.1', f"{clsname}: result array initialised as extend_constant(oversample_piecewise_constant(self.y, n), n, 'both')",
+                  show(y, 300), st.rfa.loc(), st.rfa.qualname, 'init-z')
     if not with_x:
         return
     x = st.X_ext
@@ -210,6 +216,8 @@ def check_constants(ctx, clsname: str):
     st = strategy(ctx.prog, clsname)
     c = sym.sym('c')
     n_checked = 0
+    if st.Y_ext is None:
+        raise AnalysisError(f"C05.3: {clsname}.rfa keeps no extended copy of the averages (layout not recognised): which reads are averages is not known")
     for sf in st.stores:
         yat = {a: c for a in sym.direct_atoms(sf.value) if sym.ATOMS.head(a) == 'el' and _is_y(sym.ATOMS.args(a)[0], st)}
         v = sym.subst(sf.value, yat)
